@@ -1,4 +1,5 @@
 import Rangers.Proofs.Evm10Run
+import Rangers.Proofs.Evm10Gas
 /-!
 # C10, part 5 — the per-opcode theorems compose along a run
 
@@ -51,5 +52,43 @@ example : ∃ fk, StepsTo (fun _ => []) (table 0) (gasParams false) 6
     rw [hi] at h
     simp only [Option.map_some, Option.some.injEq, Prod.mk.injEq] at h
     exact ⟨fk, stepsTo_of_iter _ _ _ hi, h.1, h.2⟩
+
+
+/-! ## Gas decides only whether, never what — memory opcodes and jumps included -/
+
+/-- `execute` of every modelled function except GAS commutes with changing the gas bookkeeping. -/
+theorem exec_gas_noninterference (H : Bytes → Bytes) (e : Exec) (f : Frame) (g l : Nat)
+    (he : e ≠ .opGas) : execOp H e (setGas f g l) = mapGas g l (execOp H e f) :=
+  execOp_setGas H e f g l he
+
+/-- One interpreter step from two frames that differ only in gas, both continuing: the results
+differ only in gas (stack, memory, pc, return data, code, call data all equal). -/
+theorem step_gas_independent (H : Bytes → Bytes) (t : Table) (p : GasParams) (f fa fb : Frame)
+    (g l : Nat) (ha : step H t p f = .next fa) (hb : step H t p (setGas f g l) = .next fb)
+    (hng : ∀ info, t.get (getOp f.code f.pc) = some info → info.exec ≠ .opGas) :
+    fb = setGas fa fb.gas fb.lastGasCost :=
+  step_gas_noninterference ha hb hng
+
+/-- **Along a whole run** (any mix of arithmetic, MSTORE/MLOAD/MCOPY/SHA3/copies, JUMP/JUMPI, …) of
+code that does not contain an executable GAS slot: runs of equal length from frames that differ only
+in gas stay equal in everything but gas.  With `run_straightline` and the per-opcode theorems this
+is the composition statement for the memory opcodes and jumps: what a program computes is a function
+of code, call data and initial stack/memory alone. -/
+theorem run_gas_independent (H : Bytes → Bytes) (t : Table) (p : GasParams) (k : Nat)
+    (f fa fb : Frame) (g l : Nat) (ha : StepsTo H t p k f fa) (hb : StepsTo H t p k (setGas f g l) fb)
+    (hng : ∀ pc info, t.get (getOp f.code pc) = some info → info.exec ≠ .opGas) :
+    fb = setGas fa fb.gas fb.lastGasCost :=
+  stepsTo_gas_noninterference ha hb hng
+
+/-- PUSH1 7, PUSH1 0, MSTORE, PUSH1 10, JUMP, INVALID, INVALID, JUMPDEST, PUSH1 0, MLOAD: eight steps
+with 1000 gas and with 500 gas reach the same stack/memory/pc (memory write, jump, memory read). -/
+example :
+    (iterSteps (fun _ => []) (table 0) (gasParams false) 8
+      (Frame.init [0x60, 0x07, 0x60, 0x00, 0x52, 0x60, 0x0a, 0x56, 0xfe, 0xfe, 0x5b, 0x60, 0x00, 0x51] [] 1000)).map
+        (fun fk => (fk.stack, fk.pc, fk.mem.length)) = some ([ofNat 7], 14, 32) ∧
+    (iterSteps (fun _ => []) (table 0) (gasParams false) 8
+      (setGas (Frame.init [0x60, 0x07, 0x60, 0x00, 0x52, 0x60, 0x0a, 0x56, 0xfe, 0xfe, 0x5b, 0x60, 0x00, 0x51] [] 1000) 500 0)).map
+        (fun fk => (fk.stack, fk.pc, fk.mem.length)) = some ([ofNat 7], 14, 32) := by
+  constructor <;> decide +kernel
 
 end Rangers.Props.C10
